@@ -242,10 +242,16 @@ public :
     canTranscodeTo(XalanUnicodeChar     theChar) const;
 
 
+    /**
+     * The transcoder a caller may ask whether a character can be
+     * represented.  It is not the object that transcodes the output:
+     * a question put to a stateful converter (ISO-2022-JP, UTF-7, SCSU...)
+     * moves its shift state.
+     */
     const XalanOutputTranscoder*
     getTranscoder() const
     {
-        return m_transcoder;
+        return m_probeTranscoder;
     }
 
     /**
@@ -481,6 +487,13 @@ private:
     const size_type         m_transcoderBlockSize;
 
     XalanOutputTranscoder*  m_transcoder;
+
+    // A second transcoder for the same encoding, used only by
+    // canTranscodeTo().  The implementations answer by converting the
+    // character with their one converter object and then resetting it; on
+    // m_transcoder that would discard the shift state (and pending output)
+    // of the document that is being written.
+    XalanOutputTranscoder*  m_probeTranscoder;
 
     size_type               m_bufferSize;
 
